@@ -99,12 +99,25 @@ theorem markTermIfCompleted_status (idx) : Rel (statusPre A) (markTermIfComplete
   unfold markTermIfCompleted
   status_walk []
 
+theorem machineStep_status (k idx ev) : Rel (statusPre A) (machineStep k idx ev) := by
+  unfold machineStep
+  status_walk [restageRetry_status _ _ _]
+
+theorem updateHead_status (k ev) (hF : A .failed = true) : Rel (statusPre A) (updateHead E k ev) := by
+  unfold updateHead
+  status_walk [ensureRecord_status E _ _ _ _ hF, noteEvent_status _ _ _ , machineStep_status _ _ _]
+
+theorem updateTail_status (recur : TaskKey → Event → M Unit) (hrec : ∀ k ev, Rel (statusPre A) (recur k ev))
+    (k ev h) (hF : A .failed = true) : Rel (statusPre A) (updateTail E recur k ev h) := by
+  unfold updateTail updateRest
+  status_walk [hrec _ _, completedRetryDecision_status E _ _ _ _ _ hF, evalTransitions_status E _ _ _ _ hF, markTermIfCompleted_status _ ]
+
 theorem updateTaskStateAux_status (fuel k ev) (hF : A .failed = true) : Rel (statusPre A) (updateTaskStateAux E fuel k ev) := by
   induction fuel generalizing k ev with
   | zero => unfold updateTaskStateAux; exact Rel.throw _
   | succ n ih =>
     unfold updateTaskStateAux
-    status_walk [ih _ _, ensureRecord_status E _ _ _ _ hF, noteEvent_status _ _ _ , restageRetry_status _ _ _ , completedRetryDecision_status E _ _ _ _ _ hF, evalTransitions_status E _ _ _ _ hF, markTermIfCompleted_status _ ]
+    status_walk [updateHead_status E _ _ hF, updateTail_status E _ (fun k ev => ih k ev) _ _ _ hF]
 
 theorem updateTaskState_status (k ev) (hF : A .failed = true) : Rel (statusPre A) (updateTaskState E k ev) :=
   updateTaskStateAux_status E 3 k ev hF
